@@ -310,8 +310,20 @@ class Sim:
         """Ids listed on several lines of one index file: no property says which line wins,
         so the model adopts what the store holds provided it is one of the file's lines for
         that id (reload and commutation oracles still bind the choice)."""
+        if any(r.get('blank') for r in f['rows']):
+            # an empty line lists nothing; whether it leaves an ILI with the empty id behind is
+            # not stated anywhere: the model follows the store for that one key
+            self.probe('ili-file-with-empty-line')
+            d0 = observe.logical_dump(self.W.dbpath())
+            got0 = {r[0]: [r[1], r[2]] for r in d0['shared']['ilis']}
+            if '' in got0:
+                self.m.ilis[''] = {'status': got0[''][0], 'definition': got0[''][1],
+                                   'meta': None}
+                self.m.ili_statuses.add(got0[''][0])
+            else:
+                self.m.ilis.pop('', None)
         lines = {}
-        for r in f['rows']:
+        for r in [x for x in f['rows'] if not x.get('blank')]:
             st = r.get('status', 'active') if 'status' in f['columns'] else 'active'
             df = r.get('definition', '') if 'definition' in f['columns'] else None
             lines.setdefault(r['ili'], []).append([st, df])
